@@ -209,8 +209,8 @@ def check(run) -> None:
     run.rule = "every transition of the GraphStore model replayed on InMemoryGraphStore; seeded random histories; distinct = distinct transition"
     consts = {"NodeIds": ["a", "b"], "EdgeIds": ["e1", "e2"] if not q else ["e1"], "Labels": ["x", "y"], "Weights": [1, 2], "Rels": ["supports"] if q else ["supports", "contradicts"],
               "MaxBatch": 2 if not q else 1, "MaxLen": 3 if not q else 3}
-    cfg = make_cfg(consts, ["OrdersAreTheDomains", "EditsCountRecognised"], ["NothingRemoved", "DeltaKeepsExistingNode"], emit=True, view="View_")
-    res = run.tlc("GraphStore", cfg, name="GraphStore", workers=8, timeout_s=1500)
+    cfg = make_cfg(consts, ["OrdersAreTheDomains"], ["NothingRemoved", "DeltaKeepsExistingNode", "EditsCountRecognised"], emit=True, view="View_")
+    res = run.tlc("GraphStore", cfg, name="GraphStore", workers=1, timeout_s=1500)
     run.model_must_hold(res)
     ts = res.emitted
     if not ts:
